@@ -129,7 +129,7 @@ def run(ck):
         cases = [rp["case"]] if "case" in rp else []
     else:
         cases = L.load_corpus("c06.txt")
-        cases += gen_doc_cases(rng, 12000 if ck.quick else 200000)
+        cases += gen_doc_cases(rng, 100000 if ck.quick else 1200000)
     res = L.run_all(ck, impl, model, cases)
 
     stats = {"documents": 0, "tree_builder_panics": 0, "skeleton_ok": 0, "skeleton_bad": 0, "one_char_chunked": 0,
